@@ -128,3 +128,14 @@ PROPS.update({
    rule="evdns_getaddrinfo with node in {4 shared hostnames (cache and hosts hits), numeric IPv4, numeric IPv6, NULL, hosts-file names}, service in {none, 0, 80, 443, 65535}, family hint unspec/inet/inet6, socktype any/stream/dgram, AI_CANONNAME / AI_PASSIVE / AI_NUMERICHOST, a hosts file served from memory, cache on/off, record TTLs 0..86400 s and virtual-time advances around them, nameserver faults as in C34; every addrinfo list is checked entry by entry: family allowed by the hint, address present in the hosts file or in a reply addressed to one of the two sub-questions (or in a cache entry whose TTL has not passed), port, ai_family, socktype and protocol; numeric / NULL / hosts nodes must not go to the network and hosts entries must be returned completely; non-trivial when a result list was compared; distinct = distinct trace hashes among non-trivial runs",
    components=dict(real=REAL_DNS, simulated=SIM_DNS + ["hosts file (memfd, read through the real open/read)"], stubbed=[]), assumptions=ASSUME_DNS, expected_probes=["hosts-hit", "numeric-or-null-node"]),
 })
+SIM_DNSS = ["the server port's UDP socket and TCP listener, the network and the clients (scripted endpoints sending valid and adversarial queries, TCP streams cut at arbitrary points) (vk/ simulated kernel, h/h_dnss.cpp)", "monotonic clock (virtual)", "allocator (ledger)", "locks (simulator-owned)"]
+def h6s(quick, thorough):
+    return lambda tier: [dict(name="h_dnss", harness="h_dnss", count=quick if tier == "quick" else thorough, tlimit=40 if tier == "quick" else 500)]
+PROPS.update({
+ "C35": dict(level="exploration", stages=h6s(20000, 300000),
+   rule="an evdns server port (UDP socket + TCP listener) whose user callback adds 0-1200 records per request from a recipe (A with 1-3 addresses, AAAA, CNAME, PTR, NS, raw TXT of 0-3000 bytes; names sharing suffixes, differing in case, root, 1-63 octet labels; all three sections) and responds with RCODE 0-15, at once, later, twice or never; requests with and without OPT (sizes 100..65535), over UDP and TCP, so that responses cross the 512-byte, EDNS, 16 KiB compression and 64 KiB limits; every response the clients receive is decoded by the reference decoder and compared with the request's questions and the records added, in order; every compression pointer must point backwards at a label of an earlier name; a TC response must consist of whole records and its counts must match them; non-trivial when a response with >= 2 records was compared; distinct = distinct trace hashes among non-trivial runs",
+   components=dict(real=REAL_DNS, simulated=SIM_DNSS, stubbed=[]), assumptions=ASSUME_DNS, expected_probes=["truncated-response", "response-above-16k"]),
+ "C37": dict(level="exploration", stages=h6s(20000, 300000),
+   rule="three scripted clients send queries from a grammar (one to three questions with compression, 253/255-octet names, root, mixed case, non-standard opcodes, QR set, cut at any byte, QDCOUNT lies, self / out-of-range / mid-label compression pointers, records in answer/authority sections, bit flips, noise, two OPT records) as UDP datagrams and as TCP length-prefixed streams cut at arbitrary points (also zero-length and lying prefixes), connections closed or reset mid-message; the reference reading of each query says whether a server may accept it; the user callback must run exactly once for each well-formed standard query with exactly its questions, never for responses, cut messages or other opcodes (those get NOTIMPL); the OPT size bounds the UDP response; ASan and the allocator ledger watch memory; non-trivial when a query was sent; distinct = distinct trace hashes among non-trivial runs",
+   components=dict(real=REAL_DNS, simulated=SIM_DNSS, stubbed=[]), assumptions=ASSUME_DNS, expected_probes=["notimpl-response", "server-closed-tcp", "client-closed-tcp"]),
+})
